@@ -13,7 +13,7 @@ import (
 // copy, F3 two-sided slice (incl. F3b), F4 parse results only on the success branch.
 
 func init() {
-	registerEngine("F", []string{"F1", "F2", "F3", "F4", "F5"}, runEngineF)
+	registerEngine("F", []string{"F1", "F2", "F3", "F4", "F5", "F6"}, runEngineF)
 }
 
 func runEngineF(p *Prog, o *obls) {
@@ -22,6 +22,7 @@ func runEngineF(p *Prog, o *obls) {
 		fF2(p, o, fn)
 		fF4(p, o, fn)
 		fF5(p, o, fn)
+		fF6(p, o, fn)
 	}
 }
 
@@ -195,7 +196,7 @@ func (p *Prog) upperBoundInClass(class []condFact, isE func(ssa.Value) bool) (in
 			continue
 		}
 		x, y, op := bo.X, bo.Y, bo.Op
-		if _, isC := constInt(p.origin(x)); isC {
+		if _, isC := p.constInClass(x, class, 0); isC {
 			// const OP e  →  e OP' const
 			x, y = y, x
 			switch op {
@@ -209,7 +210,7 @@ func (p *Prog) upperBoundInClass(class []condFact, isE func(ssa.Value) bool) (in
 				op = token.LEQ
 			}
 		}
-		G, isC := constInt(p.origin(y))
+		G, isC := p.constInClass(y, class, 0)
 		if !isC || !isE(p.origin(x)) && !isE(x) {
 			continue
 		}
@@ -1404,4 +1405,75 @@ func (p *Prog) callerLenBound(fn *ssa.Function, v ssa.Value, local []condFact, d
 		return 0, false, nil
 	}
 	return worst, true, wit
+}
+
+// constInClass evaluates v to an integer constant on the path class `class`: constants, sums and differences of such,
+// and φs whose incoming edges that are consistent with the class (the predecessor's dominating facts and the branch
+// taken into the φ's block do not contradict a fact of the class) all carry the same constant. This is what lets a
+// limit computed as `limit := K; if rtx { limit -= 2 }` be read as K-2 on the rtx class and K on the other.
+func (p *Prog) constInClass(v ssa.Value, class []condFact, depth int) (int64, bool) {
+	if depth > 6 {
+		return 0, false
+	}
+	vo := p.origin(v)
+	if c, ok := constInt(vo); ok {
+		return c, true
+	}
+	switch x := vo.(type) {
+	case *ssa.Convert:
+		return p.constInClass(x.X, class, depth+1)
+	case *ssa.BinOp:
+		a, ok1 := p.constInClass(x.X, class, depth+1)
+		b, ok2 := p.constInClass(x.Y, class, depth+1)
+		if !ok1 || !ok2 {
+			return 0, false
+		}
+		switch x.Op {
+		case token.ADD:
+			return a + b, true
+		case token.SUB:
+			return a - b, true
+		case token.MUL:
+			return a * b, true
+		}
+	case *ssa.Phi:
+		want := map[string]bool{}
+		for _, f := range class {
+			f = normFact(f)
+			if k, ct, ok := p.canonFact(f.cond, f.truth); ok {
+				want[k] = ct
+			}
+		}
+		have := false
+		var val int64
+		for i, e := range x.Edges {
+			pr := x.Block().Preds[i]
+			facts := dominatingFacts(pr)
+			if c := ifCond(pr); c != nil && pr.Succs[0] != pr.Succs[1] {
+				facts = append(facts, condFact{c, pr.Succs[0] == x.Block()})
+			}
+			feasible := true
+			for _, f := range facts {
+				f = normFact(f)
+				if k, ct, ok := p.canonFact(f.cond, f.truth); ok {
+					if w, has := want[k]; has && w != ct {
+						feasible = false
+					}
+				}
+			}
+			if !feasible {
+				continue
+			}
+			c, ok := p.constInClass(e, class, depth+1)
+			if !ok {
+				return 0, false
+			}
+			if have && c != val {
+				return 0, false
+			}
+			have, val = true, c
+		}
+		return val, have
+	}
+	return 0, false
 }
